@@ -55,7 +55,10 @@ Parse ==
   /\ running /\ ppos <= Len(stream) /\ Len(sendBuf) < 3
   /\ LET it == stream[ppos] off == ppos IN
      /\ ppos' = ppos + 1
-     /\ CASE it.k = "ping" -> Push([k |-> "ping", off |-> off, db |-> pcurDB]) /\ UNCHANGED <<pcurDB, bypass>>
+     /\ CASE it.k = "ping" ->
+               \* (output.go: a keep-alive read while a black-listed database is selected is dropped with the rest)
+               IF bypass THEN UNCHANGED <<pcurDB, bypass, sendBuf>>
+               ELSE Push([k |-> "ping", off |-> off, db |-> pcurDB]) /\ UNCHANGED <<pcurDB, bypass>>
           [] it.k = "sel" ->
                IF it.d \in Blacklist
                THEN bypass' = TRUE /\ UNCHANGED <<pcurDB, sendBuf>>
